@@ -289,6 +289,19 @@ let handle_io (toks : string list) : string =
         | Some ((res, p'), _) -> p := p';
           (match res with Ok r -> "OK " ^ str_omsg r | Err _ -> "ER")) msgs in
     Printf.sprintf "%s | %s | %s" (String.concat " ; " outs) (hex_of_bytes !p.pt_out.w_out) (hex_of_bytes !p.pt_in.r_content)
+  | "ODS" :: input :: rest ->
+    (* ODS input reply... / wsched... : the bridge in front of a scripted bus (one scripted answer per forwarded message) *)
+    let (replies, ws) = split_at "/" rest in
+    let p = ref { pt_in = { r_content = bytes_of_hex input; r_sched = [] };
+                  pt_out = { w_out = []; w_sched = List.map wr_ev_of_str ws } } in
+    let outs = List.map (fun rs ->
+        let answer = (match rs with "N" -> None | s -> Some (msg_of_str s)) in
+        match odk_step_replied !p (fun _ -> answer) with
+        | None -> "FUEL"
+        | Some ((res, p'), fwd) -> p := p';
+          Printf.sprintf "%s fwd=%s" (match res with Ok _ -> "OK" | Err (OComm _) -> "COMM" | Err OPanic -> "PANIC")
+            (match fwd with None -> "-" | Some m -> str_msg m)) replies in
+    Printf.sprintf "%s | %s | %s" (String.concat " ; " outs) (hex_of_bytes !p.pt_out.w_out) (hex_of_bytes !p.pt_in.r_content)
   | "OD" :: k :: rest ->
     let (signs, rest) = parse_signs (int_of_string k) rest in
     let rest = (match rest with "|" :: r -> r | r -> r) in
@@ -510,7 +523,7 @@ let handle (line : string) : string =
                                 | Ok _ -> false | Err _ -> true)
                               (pages_of_str (String.concat "." rest))
                           | _ -> false) -> " => NOPAGE"
-  | "CT" :: op :: rest ->
+  | "CTD" :: _ :: _ :: op :: rest | "CT" :: op :: rest ->   (* CTD: how long the bus takes is of no concern to the model *)
     let script = List.map reply_of_str rest in
     let (tr, o) = (cop_of_str op).run_s script in
     Printf.sprintf "%s => %s" (String.concat " " (List.map str_msg tr)) o
